@@ -8,8 +8,10 @@ use ntex_util::{future::join, task::LocalWaker};
 pub trait SizedRequest {
     fn size(&self) -> u32;
 
+    /// Request starts a streamed publish, its payload chunks bypass in-flight limits
     fn is_publish(&self) -> bool;
 
+    /// Request is a payload chunk of the streamed publish, more chunks follow
     fn is_chunk(&self) -> bool;
 }
 
